@@ -4,6 +4,29 @@
 /* ------------------------------------------------------------------ main loop */
 static void usage(void) { fprintf(stderr, "usage: drv_api --out F [--seed S] [--ops N] [--maxlive L] [--profile P]\n"); exit(2); }
 
+static int scen_arena = -1;
+static void* scen_bound_worker(void* arg) {
+  worker_t* w = (worker_t*)arg;
+  cur_t = w->t; cur_theap = w->heapid;
+#if defined(VF_SHIM)
+  vf_cur_thread = w->t;
+#endif
+  vf_logf("{\"e\":\"tstart\",\"t\":%d,\"h\":%d}", w->t, w->heapid); vf_log_line_end();
+  int hi = heap_new_in_arena_op(scen_arena);
+  if (hi > 0) {
+    static const size_t szs[] = {64, 1000, 20000, 300000, 2u << 20};
+    for (int j = 0; j < 25; j++) op_alloc_ex(A_heap_malloc, szs[j % 5] + (size_t)vf_randn(64), 0, 0, hi, 0);
+    for (int s_ = 0, k = 0; s_ < MAXSLOTS; s_++) if (slots[s_].p && slots[s_].heap == hps[hi].id && (k++ % 3) == 0) op_free_slot(s_, FR_free);
+    hps[hi].alive = 0; hps[hi].descid = 0;      /* released by mi_thread_done */
+  }
+  vf_logf("{\"e\":\"tdone\",\"t\":%d}", w->t); vf_log_line_end();
+  vf_in_call = 1; mi_thread_done(); vf_in_call = 0;
+  cur_t = 0; cur_theap = 0;
+#if defined(VF_SHIM)
+  vf_cur_thread = 0;
+#endif
+  return NULL;
+}
 int main(int argc, char** argv) {
   const char* out = NULL; const char* profile = "c01"; const char* progpath = NULL; uint64_t seed = 1; long ops = 2000;
   const char* workload = NULL; const char* scenario = NULL; const char* c18pat = NULL; int rounds = 3; long c18step = 100; long fault_at = 0; int fault_persist = 0, fault_kind = 0, recover_after = 0, count_os = 0;
@@ -171,6 +194,26 @@ int main(int argc, char** argv) {
           }
         }
       }
+    }
+    op_checkall(); ops = 0;
+  }
+  if (scenario && !strcmp(scenario, "exclrelease")) {
+    /* a thread works in an exclusive arena through a bound heap and exits with live blocks; the main thread (whose heap may not use that
+       arena) frees them and force-collects: the segments are released, the arena is empty again (C11 / C09) */
+    for (int round = 0; round < 3; round++) {
+      static int ar = -1; if (ar < 0) ar = arena_setup((size_t)6 * (32u << 20), 65536, 1);
+      if (ar < 0) break;
+      scen_arena = ar;
+      pthread_t th; worker_t w; memset(&w, 0, sizeof(w)); w.t = next_thread_id++; w.heapid = next_heap_id++;
+      pthread_create(&th, NULL, scen_bound_worker, &w); pthread_join(th, NULL);
+      for (int s_ = 0; s_ < MAXSLOTS; s_++) if (slots[s_].p && slots[s_].heap != hps[0].id) op_free_slot(s_, FR_free);
+      do_collect(1); vf_clock_advance(500); do_collect(1);
+      mi_arena_t* arena = mi_arena_from_index(mi_arena_id_index(ars[ar].aid));
+      size_t nblocks = arena->block_count;
+      vf_logf("{\"e\":\"refill\",\"blocks\":%zu,\"inuse\":[", nblocks);
+      int first = 1, nin = 0;
+      for (size_t i = 0; i < nblocks; i++) if (_mi_bitmap_is_claimed(arena->blocks_inuse, arena->field_count, 1, mi_bitmap_index_create(i / 64, i % 64))) { vf_logf("%s%zu", first ? "" : ",", i); first = 0; nin++; }
+      vf_logf("],\"areas\":[],\"got\":%d}", (int)nblocks - nin); vf_log_line_end();
     }
     op_checkall(); ops = 0;
   }
